@@ -42,13 +42,18 @@ def load_known():
         return json.load(f).get("findings", [])
 
 
+def _glob(pattern, text):
+    """'*' is the only wildcard (obligation names contain brackets, which fnmatch would treat as character classes)"""
+    return re.fullmatch(".*".join(re.escape(x) for x in pattern.split("*")), text) is not None
+
+
 def match_known(known, pid, ob, verdict):
     """An open entry matches if the obligation name matches its glob and every key of `instance` matches the
     obligation's instance, and (if given) `reason_regex` matches the verdict's detail."""
     for k in known:
         if k.get("property") != pid or k.get("status", "open") != "open":
             continue
-        if not fnmatch.fnmatchcase(ob.name, k["obligation"]):
+        if not _glob(k["obligation"], ob.name):
             continue
         inst = k.get("instance", {})
         if any(str(ob.instance.get(a)) != str(b) for a, b in inst.items()):
@@ -119,7 +124,7 @@ def main(argv=None):
         print(f"CHECKER-ERROR property={pid} {type(e).__name__}: {e}")
         return 3
     if args.only:
-        obs = [o for o in obs if fnmatch.fnmatchcase(o.name, args.only)]
+        obs = [o for o in obs if _glob(args.only, o.name)]
     if args.list:
         for o in obs + canaries:
             print(o.name)
@@ -237,9 +242,11 @@ def write_evidence(pid, tier, seed, prop, obs, verdicts, canaries, cverdicts, kn
             d["backend"] = v["backend"]
             d["time_s"] = v["time_s"]
             samples.append(d)
-    n_ob = len(proof_obs)
-    n_dis = sum(1 for o, v in proof_obs if v["status"] == PROVED)
     known_names = {o.name for o, v, k in known_hits}
+    # obligations refuted by a LISTED known finding are reported separately (they are genuine, recorded defects); the
+    # proof-level counts cover every other obligation
+    n_ob = len([1 for o, v in proof_obs if o.name not in known_names])
+    n_dis = sum(1 for o, v in proof_obs if v["status"] == PROVED)
     level = getattr(prop, "LEVEL", "proof")
     cov = dict(
         obligations=n_ob,
